@@ -253,11 +253,121 @@ QBLOCKS = {
 }
 
 
+RECURSION_SHAPE = """if l == 1 and s >= 6 or (l == 2 and s >= 5) or (l == 3 and s >= 4) or (l == 4 and s >= 5):
+    negT, posT = (T - 0.5, T + 0.5)
+    return {f}(species_i, species_j, l, s - 1, T) + T / (s + 1) * ({f}(species_i, species_j, l, s - 1, posT) - {f}(species_i, species_j, l, s - 1, negT))"""
+
+
+def fit_tables(repo):
+    """the Laricchiuta coefficient tables c_nn / c_in, read from the module as Python evaluates them, rendered exactly (decimal reading)"""
+    import importlib
+    import sys
+    from fractions import Fraction
+    sys.path.insert(0, os.path.join(repo, "src"))
+    for m in [k for k in sys.modules if k.startswith("minplascalc")]:
+        del sys.modules[m]
+    try:
+        ft = importlib.import_module("minplascalc.functions_transport")
+    except Exception as e:  # noqa: BLE001
+        raise Unsupported("functions_transport.py", None, f"module does not import: {type(e).__name__}: {e}")
+    out = []
+    for nm in ("c_nn", "c_in"):
+        arr = getattr(ft, nm)
+        rows = []
+        for l in range(arr.shape[0]):
+            for s_ in range(arr.shape[1]):
+                blk = arr[l, s_]
+                if blk != blk if False else (blk[0][0] != blk[0][0]):
+                    continue
+                trip = []
+                for k in range(7):
+                    cs = []
+                    for c in blk[k]:
+                        fr = Fraction(repr(float(c)))
+                        cs.append(f"(ndiv N (nofZ N ({fr.numerator})%Z) (nofZ N {fr.denominator}%Z))" if fr.denominator != 1 else f"(nofZ N ({fr.numerator})%Z)")
+                    trip.append("(" + ", ".join(cs) + ")")
+                rows.append(f"  | {l + 1}%nat, {s_ + 1}%nat => [" + "; ".join(trip) + "]")
+        out.append(f"Definition {nm}_tab (l s : nat) : list (A * A * A) :=\n  match l, s with\n" + "\n".join(rows) + "\n  | _, _ => []\n  end.\n")
+    return "\n".join(out)
+
+
 def gen_transport(repo, out):
+    import ast
     t = Translator(os.path.join(repo, "src/minplascalc/functions_transport.py"), "functions_transport.py")
     for fn, qs in QBLOCKS.items():
         t.function_qblock(fn, fn.strip("_").replace("_jit", ""), qs)
-    write_if_changed(os.path.join(out, "GenTransport.v"), t.render(HEADER.format(extra=" GenSpecies RefEnergy"), "GenTransport"))
+    # ---- collision integrals ----
+    t.globals_env = {"ke": ("(ke_c U)", "A"), "egamma": ("(egamma U)", "A")}
+    t.out.append(fit_tables(repo))
+    t.out.append("Definition fit_coeffs (tab : list (A * A * A)) (beta_value : A) : list A :=\n"
+                 "  map (fun c => let '(c0, c1, c2) := c in nadd N (nadd N c0 (nmul N c1 beta_value)) (nmul N c2 (npow N beta_value 2))) tab.\n")
+    sp2 = [("species_i", "species"), ("species_j", "species")]
+    poison = ("(ndiv N (nofZ N 0%Z) (nofZ N 0%Z))", "A")
+    t.function("pot_parameters_neut_neut", FnCfg("pot_nn", sp2, ret=("tuple", ["A", "A"]),
+                                                 extra_env={"__raise__": (f"({poison[0]}, {poison[0]})", ("tuple", ["A", "A"]))}))
+    t.function("pot_parameters_ion_neut", FnCfg("pot_in", [("species_ion", "species"), ("species_neutral", "species")], ret=("tuple", ["A", "A"])))
+    t.function("beta", FnCfg("beta_par", sp2))
+    t.function("x0_neut_neut", FnCfg("x0_nn", [("beta_value", "A")]))
+    t.function("x0_ion_neut", FnCfg("x0_in", [("beta_value", "A")]))
+    t.function("cl_charged", FnCfg("cl_charged", sp2 + [("n_i", "A"), ("n_j", "A"), ("T", "A")]))
+    t.function("A", FnCfg("A_fit", [("ionisation_energy", "A")]))
+    t.function("B", FnCfg("B_fit", [("ionisation_energy", "A")]))
+    t.known_calls.update({
+        "pot_parameters_neut_neut": ("pot_nn", ("tuple", ["A", "A"]), ["species", "species"]),
+        "pot_parameters_ion_neut": ("pot_in", ("tuple", ["A", "A"]), ["species", "species"]),
+        "beta": ("beta_par", "A", ["species", "species"]), "x0_neut_neut": ("x0_nn", "A", ["A"]), "x0_ion_neut": ("x0_in", "A", ["A"]),
+        "cl_charged": ("cl_charged", "A", ["species", "species", "A", "A", "A"]),
+        "A": ("A_fit", "A", ["A"]), "B": ("B_fit", "A", ["A"]),
+        "psiconst": ("psiconst N", "A", ["nat"]), "sum1": ("sum1 N U", "A", ["nat"]), "sum2": ("sum2 N", "A", ["nat"]),
+    })
+    # Qe: the isinstance chain on the cross-section data is checked syntactically; the closed form is translated with D1..D4 bound
+    fn = t.find("Qe")
+    body = [b for b in fn.body if not t.is_doc(b)]
+    want = ("if isinstance(species_i.electron_cross_section, (tuple, list)):\n    D1, D2, D3, D4 = species_i.electron_cross_section\n"
+            "elif isinstance(species_i.electron_cross_section, float):\n    D1, D2, D3, D4 = (species_i.electron_cross_section, 0, 0, 0)\n"
+            "else:\n    raise ValueError('Invalid electron cross section data.')")
+    if not body or ast.unparse(body[0]) != want:
+        raise Unsupported("functions_transport.py", fn, "Qe does not start with the expected unpacking of electron_cross_section")
+    tail = ast.FunctionDef(name="Qe_closed", args=fn.args, body=body[1:], decorator_list=[], lineno=fn.lineno)
+    t.tree.body.append(tail)
+    cfg = FnCfg("Qe_closed", [("species_i", "species"), ("l", "nat"), ("s", "nat"), ("T", "A")],
+                extra_env={"D1": ("D1", "A"), "D2": ("D2", "A"), "D3": ("D3", "A"), "D4": ("D4", "A")},
+                coq_params="(D1 D2 D3 D4 : A) (species_i : species A) (l s_ : nat) (T : A)")
+    t.function("Qe_closed", cfg)
+    t.out.append("Definition Qe (species_i : species A) (l s_ : nat) (T : A) : A :=\n"
+                 "  match electron_cross_section species_i with\n"
+                 "  | Some (D1, D2, D3, D4) => Qe_closed D1 D2 D3 D4 species_i l s_ T\n"
+                 "  | None => ndiv N (nofZ N 0%Z) (nofZ N 0%Z)   (* ValueError *)\n  end.\n")
+    # Qnn / Qin: recursion guard checked syntactically (its shape IS the documented recursion); the fitted part is translated
+    for py, coq, tab in (("Qnn", "Qnn", "c_nn"), ("Qin", "Qin", "c_in")):
+        fn = t.find(py)
+        body = [b for b in fn.body if not t.is_doc(b)]
+        if not body or ast.unparse(body[0]) != RECURSION_SHAPE.format(f=py):
+            raise Unsupported("functions_transport.py", fn, f"{py} does not start with the documented recursion guard")
+        guard = body[0].test
+        gtxt, gty = t.ex(guard, {"l": "nat", "s": "nat"}, FnCfg("g", []))
+        t.out.append(f"Definition {coq}_guard (l s_ : nat) : bool := {gtxt}.\n")
+        fit = ast.FunctionDef(name=f"{py}_fit", args=fn.args, body=body[1:], decorator_list=[], lineno=fn.lineno)
+        t.tree.body.append(fit)
+        t.np_dot_tab = tab
+        t.function(f"{py}_fit", FnCfg(f"{coq}_fit", sp2 + [("l", "nat"), ("s", "nat"), ("T", "A")]))
+        t.out.append(f"(* orders beyond the fitted table: Q(l,s,T) = Q(l,s-1,T) + T/(s+1) (Q(l,s-1,T+1/2) - Q(l,s-1,T-1/2)) *)\n"
+                     f"Definition {coq} (species_i species_j : species A) (l s_ : nat) (T : A) : A :=\n"
+                     f"  Q_recursion N ({coq}_guard l) ({coq}_fit species_i species_j l) 8 s_ T.\n")
+    t.known_calls.update({"Qe": ("Qe", "A", ["species", "nat", "nat", "A"]),
+                          "Qnn": ("Qnn", "A", ["species", "species", "nat", "nat", "A"]),
+                          "Qin": ("Qin", "A", ["species", "species", "nat", "nat", "A"])})
+    t.function("Qtr", FnCfg("Qtr", sp2 + [("s", "nat"), ("T", "A")]))
+    t.known_calls["Qtr"] = ("Qtr", "A", ["species", "species", "nat", "A"])
+    t.function("Qc", FnCfg("Qc", [("species_i", "species"), ("n_i", "A"), ("species_j", "species"), ("n_j", "A"), ("l", "nat"), ("s", "nat"), ("T", "A")]))
+    t.known_calls["Qc"] = ("Qc", "A", ["species", "A", "species", "A", "nat", "nat", "A"])
+    qij_params = [("species_i", "species"), ("ni", "A"), ("species_j", "species"), ("nj", "A"), ("l", "nat"), ("s", "nat"), ("T", "A")]
+    t.function("Qij", FnCfg("Qij", qij_params, extra_env={"__raise__": poison}))
+    # the same decision chain with class tags instead of values (for the dispatch theorem)
+    t.class_mode = True
+    t.function("Qij", FnCfg("Qij_class", qij_params, ret="qclass", extra_env={"__raise__": ("CUnknown", "qclass")}))
+    t.class_mode = False
+    write_if_changed(os.path.join(out, "GenTransport.v"), t.render(HEADER.format(extra=" GenSpecies RefEnergy TransportLib"), "GenTransport"))
 
 
 def gen_effects(repo, out):
